@@ -67,6 +67,7 @@ class Loader(yaml.SafeLoader):
             mark = self.get_mark()
             node = yaml.ScalarNode('tag:yaml.org,2002:null', '', mark, mark)
         self.__reject_recursion(node, ())
+        node = self.__unshared(node)
         node = self.__process_node(node, type(self).document_type)
         return node
 
@@ -83,6 +84,7 @@ class Loader(yaml.SafeLoader):
         node = cast(yaml.Node, super().get_node())
         if node is not None:
             self.__reject_recursion(node, ())
+            node = self.__unshared(node)
             node = self.__process_node(node, type(self).document_type)
         return node
 
@@ -109,6 +111,34 @@ class Loader(yaml.SafeLoader):
             for key_node, value_node in node.value:
                 self.__reject_recursion(key_node, parents)
                 self.__reject_recursion(value_node, parents)
+
+    def __unshared(self, node: yaml.Node) -> yaml.Node:
+        """Returns a copy of the node tree without shared nodes.
+
+        PyYAML composes an alias as the very same node object as its
+        anchor. Processing rewrites nodes in place (tags, savorizing)
+        based on the type expected in that place, so every occurrence
+        needs a node of its own.
+
+        Args:
+            node: The root of the (acyclic) node graph to copy.
+
+        Returns:
+            An equal tree in which every node occurs exactly once.
+        """
+        if isinstance(node, yaml.SequenceNode):
+            return yaml.SequenceNode(
+                    node.tag, [self.__unshared(item) for item in node.value],
+                    node.start_mark, node.end_mark, node.flow_style)
+        if isinstance(node, yaml.MappingNode):
+            return yaml.MappingNode(
+                    node.tag,
+                    [(self.__unshared(key_node), self.__unshared(value_node))
+                        for key_node, value_node in node.value],
+                    node.start_mark, node.end_mark, node.flow_style)
+        return yaml.ScalarNode(
+                node.tag, node.value, node.start_mark, node.end_mark,
+                node.style)
 
     def __type_to_tag(self, type_: Type) -> str:
         """Convert a type to the corresponding YAML tag.
